@@ -13,6 +13,7 @@ import (
 	"sync"
 
 	"github.com/tobgu/qframe"
+	"github.com/tobgu/qframe/config/groupby"
 
 	"verif/internal/tx"
 )
@@ -100,6 +101,35 @@ func concSection(r *tx.Rng, w *tx.W, size int, opt map[string]string) {
 						return "panic"
 					}
 					return digestFrame(qf, false)
+				})
+			}
+		}
+		// Distinct / GroupBy keyed by a string column with nulls from several goroutines at once (nulls that do not equal
+		// each other get a random hash: whatever produces it is shared by all calls)
+		{
+			nrows := 30 + r.Intn(40)
+			col := make([]*string, nrows)
+			for i := range col {
+				if r.P(1, 3) {
+					continue
+				}
+				v := strAlphabet[r.Intn(len(strAlphabet))]
+				col[i] = &v
+			}
+			nf := qframe.New(map[string]interface{}{"s": col, "n": make([]int, nrows)})
+			for k := 0; k < 4; k++ {
+				k := k
+				ops = append(ops, func() string {
+					qf, pm := safely(func() qframe.QFrame {
+						if k%2 == 0 {
+							return nf.Distinct(groupby.Columns("s"))
+						}
+						return nf.GroupBy(groupby.Columns("s")).Aggregate(qframe.Aggregation{Fn: "count", Column: "n"})
+					})
+					if pm != "" {
+						return "panic"
+					}
+					return digestFrame(qf, true)
 				})
 			}
 		}
